@@ -506,8 +506,11 @@ theorem clip_denote' (eb box : Bound α) (g : SGeom α) (σ σ' : Store α) (r :
     split at hr <;> rename_i hp
     · simp only [Option.some.injEq, Prod.mk.injEq] at hr; rw [← hr.2]; simp only [hp, if_true]; rfl
     · simp only [hp, if_false]
-      split at hr <;> rename_i he <;>
-        (simp only [Option.some.injEq, Prod.mk.injEq] at hr; rw [← hr.2]; simp only [he, if_true, if_false]; rfl)
+      split at hr <;> rename_i hg
+      · simp only [Option.some.injEq, Prod.mk.injEq] at hr; rw [← hr.2]; simp only [hg, if_true]; rfl
+      · simp only [hg, if_false]
+        split at hr <;> rename_i he <;>
+          (simp only [Option.some.injEq, Prod.mk.injEq] at hr; rw [← hr.2]; simp only [he, if_true, if_false]; rfl)
   | h2 h =>
     simp only [geometryH] at hr
     simp only [denoteS, Clip.geometry]
